@@ -22,7 +22,6 @@ import (
 	"time"
 
 	"github.com/miekg/dns"
-	"github.com/semihalev/sdns/config"
 	"github.com/semihalev/sdns/internal/verifshim/vkit"
 	"github.com/semihalev/sdns/internal/verifshim/vtime"
 	"github.com/semihalev/sdns/middleware"
@@ -44,7 +43,7 @@ func (e vkC04Ev) String() string {
 	switch e.Kind {
 	case "adv":
 		return fmt.Sprintf("adv(%ds)", e.D)
-	case "p", "al":
+	case "p", "al", "al2":
 		return fmt.Sprintf("%s(ttl=%d,cut=%d,sig=%d)", e.Kind, e.TTL, e.Cut, e.Sig)
 	case "neg", "negq":
 		return fmt.Sprintf("%s(ttl=%d,min=%d,cut=%d,val=%v)", e.Kind, e.TTL, e.Min, e.Cut, e.Val)
@@ -55,7 +54,7 @@ func (e vkC04Ev) String() string {
 func vkC04Events(thorough bool) []vkC04Ev {
 	evs := []vkC04Ev{
 		{Kind: "p", TTL: 1}, {Kind: "p", TTL: 7}, {Kind: "p", TTL: 30, Cut: 3}, {Kind: "p", TTL: 1, Cut: 3}, {Kind: "p", TTL: 300, Sig: 7},
-		{Kind: "al", TTL: 7}, {Kind: "al", TTL: 30, Cut: 3}, {Kind: "al", TTL: 30},
+		{Kind: "al", TTL: 7}, {Kind: "al", TTL: 30, Cut: 3}, {Kind: "al", TTL: 30}, {Kind: "al2", TTL: 30},
 		{Kind: "neg", TTL: 30, Min: 7}, {Kind: "neg", TTL: 30, Min: 30, Cut: 3, Val: true}, {Kind: "neg", TTL: 30, Min: 7, Val: true},
 		{Kind: "negq", TTL: 30, Min: 30, Cut: 3, Val: true}, {Kind: "negq", TTL: 30, Min: 30, Val: true},
 		{Kind: "nn"}, {Kind: "xn"}, {Kind: "qq"},
@@ -64,7 +63,7 @@ func vkC04Events(thorough bool) []vkC04Ev {
 	}
 	if thorough {
 		evs = append(evs, vkC04Ev{Kind: "p", TTL: 30, Cut: 20}, vkC04Ev{Kind: "p", TTL: 300, Sig: 2}, vkC04Ev{Kind: "p", TTL: 0},
-			vkC04Ev{Kind: "al", TTL: 1}, vkC04Ev{Kind: "neg", TTL: 2, Min: 30}, vkC04Ev{Kind: "adv", D: 5})
+			vkC04Ev{Kind: "al", TTL: 1}, vkC04Ev{Kind: "al2", TTL: 7}, vkC04Ev{Kind: "neg", TTL: 2, Min: 30}, vkC04Ev{Kind: "adv", D: 5})
 	}
 	return evs
 }
@@ -102,6 +101,11 @@ func (p *vkC04Piece) settle(now time.Time) {
 const (
 	vkPName  = "p.t."
 	vkAlName = "al.t."
+	// al2.t. -> mid.t. -> p.t., where mid.t. is answered with a BARE CNAME by a local
+	// handler in front of the cache: the cache's alias chase has to walk two laps itself
+	// (a chain the nested pipeline completes in one lap never exercises the later laps).
+	vkAl2Name = "al2.t."
+	vkMidName = "mid.t."
 	vkNName  = "n.t."
 	vkNNName = "nn.t."
 	vkXNName = "x.n.t."
@@ -113,6 +117,25 @@ func vkSig(owner string, covered uint16, ttl uint32, exp time.Time) *dns.RRSIG {
 	return &dns.RRSIG{Hdr: dns.RR_Header{Name: owner, Rrtype: dns.TypeRRSIG, Class: dns.ClassINET, Ttl: ttl}, TypeCovered: covered,
 		Algorithm: 13, Labels: uint8(dns.CountLabel(owner)), OrigTtl: ttl, Expiration: uint32(exp.Unix()), Inception: uint32(exp.Add(-48 * time.Hour).Unix()),
 		KeyTag: 1, SignerName: "t.", Signature: "AAAA"}
+}
+
+// vkC04Static is the local answerer in front of the cache (hostsfile/blocklist position).
+type vkC04Static struct{}
+
+func (vkC04Static) Name() string { return "vkstatic" }
+
+func (vkC04Static) ServeDNS(ctx context.Context, ch *middleware.Chain) {
+	req := ch.Request.Msg()
+	if req == nil || len(req.Question) != 1 || !strings.EqualFold(req.Question[0].Name, vkMidName) {
+		ch.Next(ctx)
+		return
+	}
+	m := new(dns.Msg)
+	m.SetReply(req)
+	m.RecursionAvailable = true
+	m.Answer = []dns.RR{&dns.CNAME{Hdr: dns.RR_Header{Name: req.Question[0].Name, Rrtype: dns.TypeCNAME, Class: dns.ClassINET, Ttl: 300}, Target: vkPName}}
+	_ = ch.Writer.WriteMsg(m)
+	ch.Cancel()
 }
 
 func clampTTL(d time.Duration) time.Duration {
@@ -128,7 +151,7 @@ func clampTTL(d time.Duration) time.Duration {
 func vkNewC04World(prefetch bool) *vkC04World {
 	vtime.SetOffset(0)
 	w := &vkC04World{issued: map[string]int{}, model: map[string]*vkC04Piece{}, lastTTL: map[string]uint32{}, nextID: 10}
-	w.vkWorld = vkNewWorld(func(cfg *config.Config) {})
+	w.vkWorld = vkNewWorldPre(vkBaseConfig(), vkC04Static{})
 	w.t0 = vtime.Now()
 	w.stub.answer = func(ctx context.Context, req *dns.Msg) *dns.Msg {
 		q := req.Question[0]
@@ -177,6 +200,18 @@ func vkNewC04World(prefetch bool) *vkC04World {
 				pc.lease = now.Add(time.Duration(cut) * time.Second)
 			}
 			w.model["fresh:"+vkAlName] = pc
+			bound(cut)
+		case vkAl2Name:
+			ttl, cut := uint32(30), 0
+			if ev.Kind == "al2" {
+				ttl, cut = ev.TTL, ev.Cut
+			}
+			m.Answer = []dns.RR{&dns.CNAME{Hdr: dns.RR_Header{Name: q.Name, Rrtype: dns.TypeCNAME, Class: dns.ClassINET, Ttl: ttl}, Target: vkMidName}}
+			pc := &vkC04Piece{marker: -1, what: "al2", life: clampTTL(time.Duration(ttl) * time.Second)}
+			if cut > 0 {
+				pc.lease = now.Add(time.Duration(cut) * time.Second)
+			}
+			w.model["fresh:"+vkAl2Name] = pc
 			bound(cut)
 		case vkNName, vkNNName, vkXNName, vkQ5Name, vkQ7Name:
 			ttl, min, cut, val := uint32(30), uint32(30), 0, false
@@ -294,9 +329,18 @@ func (w *vkC04World) checkReply(route vkRoute, qname string, r vkReply, t time.T
 			return v
 		}
 	}
-	if len(cnames) > 0 && !(r.stubCalls > 0 && w.model["fresh:"+vkAlName] != nil) {
-		if v := judge(w.model[vkAlName], "alias entry", cnames); v != "" {
-			return v
+	for _, al := range []string{vkAlName, vkAl2Name} {
+		// an alias entry is judged by the CNAME it owns (mid.t.'s CNAME is the local answerer's)
+		var own []dns.RR
+		for _, rr := range cnames {
+			if strings.EqualFold(rr.Header().Name, al) {
+				own = append(own, rr)
+			}
+		}
+		if len(own) > 0 && !(r.stubCalls > 0 && w.model["fresh:"+al] != nil) {
+			if v := judge(w.model[al], "alias entry", own); v != "" {
+				return v
+			}
 		}
 	}
 	if r.stubCalls == 0 && (m.Rcode == dns.RcodeNameError || (m.Rcode == dns.RcodeSuccess && len(m.Answer) == 0 && len(m.Ns) > 0)) {
@@ -374,12 +418,14 @@ func (w *vkC04World) query(ev vkC04Ev, qname string) (string, string) {
 	if f := w.model["fresh:"+vkPName]; f != nil {
 		w.model[vkPName] = f
 	}
-	if f := w.model["fresh:"+vkAlName]; f != nil {
-		// composed at admission: the alias inherits the shortest lifetime among its pieces
-		if p := w.model[vkPName]; p != nil && p.deadline.Before(f.deadline) {
-			f.deadline = p.deadline
+	for _, al := range []string{vkAlName, vkAl2Name} {
+		if f := w.model["fresh:"+al]; f != nil {
+			// composed at admission: the alias inherits the shortest lifetime among its pieces
+			if p := w.model[vkPName]; p != nil && p.deadline.Before(f.deadline) {
+				f.deadline = p.deadline
+			}
+			w.model[al] = f
 		}
-		w.model[vkAlName] = f
 	}
 	for k, f := range w.model {
 		if strings.HasPrefix(k, "fresh:neg:") {
@@ -434,6 +480,8 @@ func (w *vkC04World) apply(ev vkC04Ev) (string, string) {
 		return w.query(ev, vkPName)
 	case "al":
 		return w.query(ev, vkAlName)
+	case "al2":
+		return w.query(ev, vkAl2Name)
 	case "neg":
 		return w.query(ev, vkNName)
 	case "negq":
@@ -471,7 +519,7 @@ func (w *vkC04World) digest() string {
 	}
 	// the REAL cache's own state for the alphabet (raw, without the expiry-on-read side effect),
 	// so that two histories are merged only when the implementation state agrees as well
-	for _, n := range []string{vkPName, vkAlName, vkNName, vkNNName, vkXNName, vkQ5Name, vkQ7Name} {
+	for _, n := range []string{vkPName, vkAlName, vkAl2Name, vkNName, vkNNName, vkXNName, vkQ5Name, vkQ7Name} {
 		key := CacheKey{Question: dns.Question{Name: n, Qtype: dns.TypeA, Qclass: dns.ClassINET}}.Hash()
 		if v, ok := w.c.store.positive.cache.Get(key); ok {
 			e := v.(*CacheEntry)
